@@ -4,6 +4,7 @@ import (
 	"bufio"
 	"bytes"
 	"io"
+	"os"
 
 	"verifsim/engine"
 	"verifsim/simio"
@@ -23,7 +24,11 @@ type source struct {
 }
 
 // wrapKinds are the plan values of a source wrapper.
-var wrapKinds = []string{"", "", "", "bufio16", "bufio64", "bufio4096", "bytesreader", "bytesbuffer"}
+var wrapKinds = []string{"", "", "", "bufio16", "bufio64", "bufio4096", "bytesreader", "bytesbuffer", "osfile"}
+
+// lastSrcFile is the temporary file behind the most recent "osfile" source; it
+// is closed when the next one is made (sources are used one after another).
+var lastSrcFile *os.File
 
 // newSource wraps s. For "bytesreader"/"bytesbuffer" the stream's effective
 // content (after its cut; an injected error cannot be expressed) is copied into
@@ -54,6 +59,36 @@ func newSource(kind string, s *simio.Stream, data []byte) source {
 		}
 		bb := bytes.NewBuffer(append([]byte(nil), d...))
 		return source{r: bb, pos: func() int { return len(d) - bb.Len() }}
+	case "osfile":
+		// a REAL regular file (already unlinked) holding the stream's effective
+		// content: the one reader type that can tell how much is left by Stat/Seek
+		d := data
+		if s.Cut >= 0 && s.Cut < len(d) {
+			d = d[:s.Cut]
+		}
+		if s.ErrAt >= 0 {
+			break
+		}
+		if lastSrcFile != nil {
+			_ = lastSrcFile.Close()
+			lastSrcFile = nil
+		}
+		f, err := os.CreateTemp("", "verif-src-*")
+		if err != nil {
+			panic(engine.HarnessError{Msg: "temporary file for a reader source: " + err.Error()})
+		}
+		_ = os.Remove(f.Name())
+		if _, err := f.Write(d); err != nil {
+			panic(engine.HarnessError{Msg: "temporary file for a reader source: " + err.Error()})
+		}
+		if _, err := f.Seek(0, io.SeekStart); err != nil {
+			panic(engine.HarnessError{Msg: "temporary file for a reader source: " + err.Error()})
+		}
+		lastSrcFile = f
+		return source{r: f, pos: func() int {
+			q, _ := f.Seek(0, io.SeekCurrent)
+			return int(q)
+		}}
 	case "":
 	default:
 		panic(engine.HarnessError{Msg: "unknown source wrapper " + kind})
